@@ -324,10 +324,11 @@ def _hourly_fit(spec, rng, keys, hist):
     df = synth_hourly(tz=tz, start="2018-01-01", days=365, seed=rng, ghi=spec["ghi"], noise=noise)
     if spec.get("pure_noise"):
         df["observed"] = np.abs(rng.normal(1, 1.5, len(df))) + 0.01
-    if spec.get("net_metered_zero_mean"):
-        df["observed"] = df["observed"] - float(df["observed"].mean())        # mean usage ~ 0: CVRMSE is undefined, PNRMSE is not
     gaps = rng.choice(len(df), size=int(0.02 * len(df)), replace=False)
     df.iloc[gaps, df.columns.get_loc("observed")] = np.nan     # -> interpolated hours
+    if spec.get("net_metered_zero_mean"):
+        # mean usage of the hours that count (not interpolated) ~ 0: CVRMSE is undefined, PNRMSE is not
+        df["observed"] = df["observed"] - float(df["observed"].mean(skipna=True))
     bd = em.HourlyBaselineData(df, is_electricity_data=True)
     captured = []
     import opendsm.common.metrics as M
